@@ -33,6 +33,7 @@ def run(prog, report, tier):
     effects.check_samecall(prog, report)
     effects.check_cache(prog, report)
     effects.check_reductions(prog, report)
+    effects.check_memo(prog, report, files={effects.SL, effects.IP})
     causal.run_prefilters(prog, report)
     report.assumptions += [
         'the fork start method is used (example.py sets it; default on '
